@@ -31,13 +31,16 @@ type sigRun struct {
 	pan string
 }
 
-func sigOf(buf []byte, hcap int, cuts []int) (r sigRun) {
+func sigOf(buf []byte, hcap int, cuts []int) (r sigRun) { return sigOfAt(buf, 0, hcap, cuts) }
+
+// sigOfAt: the message starts at offset start of buf (cuts are absolute).
+func sigOfAt(buf []byte, start int, hcap int, cuts []int) (r sigRun) {
 	o := newMsg(Cfg{HdrCap: hcap, ContactCap: -1, MsgFlags: sipsp.SIPMsgSkipBodyF}).(*msgObj)
 	var pan string
 	if len(cuts) > 1 {
 		// the signature (and the accessors) may be asked for while the parse is suspended: whatever
 		// comes back then must not influence the signature of the finished message
-		offs := 0
+		offs := start
 		r.pe = sipsp.ErrHdrMoreBytes
 		for _, c := range cuts {
 			pre := isoCopy(buf[:c])
@@ -55,7 +58,7 @@ func sigOf(buf []byte, hcap int, cuts []int) (r sigRun) {
 			}()
 		}
 	} else {
-		r.n, r.pe, _, pan = drive(o, buf, 0, cuts)
+		r.n, r.pe, _, pan = drive(o, buf, start, cuts)
 	}
 	if pan != "" {
 		r.pan = pan
@@ -288,6 +291,23 @@ func RunC19(r *core.Run) {
 				}
 			}
 			vars = append(vars, variant{"values outside the fingerprinted strings changed", assemble(ls), len(ls)})
+		}
+		// the same bytes behind k bytes of other data, parsed from offset k
+		{
+			k := []int{1, 2, 7, 40, 300, 4096}[rr.Intn(6)]
+			s := sc(w)
+			s.buf = shiftBuf(rr, s.buf, buf, k)
+			cuts := []int{len(s.buf)}
+			if rr.Bool() {
+				cuts = CutsRandom(nil, rr, k, len(s.buf), rr.Range(1, 4))
+			}
+			got := sigOfAt(s.buf, k, nh+2, cuts)
+			w.Eval(1)
+			if got.pan != "" || got.pe != sipsp.ErrHdrOk || got.err != base.err || got.sig != base.sig {
+				shifted := append([]byte(nil), s.buf...)
+				fail("start-offset", fmt.Sprintf("the same request parsed at offset %d: signature %q / %s (parse %s, panic %q); at offset 0: %q / %s", k, got.sig.String(), errName(got.err), errName(got.pe), got.pan, base.sig.String(), errName(base.err)), shifted)
+				return
+			}
 		}
 		compared := 0
 		for _, v := range vars {
